@@ -113,7 +113,7 @@ theorem parseDecimal_plain {ip fp : List Char} (hne : ip ++ fp ≠ [])
     dropWhile_app hdot (by simp : ('.' != '.') = false), List.drop_one, List.tail_cons]
   rw [parseSigned_digits hne hall]
   unfold plainValue
-  simp only [precision, minInt32, maxInt32]
+  simp only [precision, Mixin.Facts.Gen.common_Precision, minInt32, maxInt32]
   have h1 : ¬ (0 + (0 + 1) > 1) := by omega
   have h2 : ¬ ((0 : Int) - ↑fp.length < -2147483648 ∨ (0 : Int) - ↑fp.length > 2147483647) := by omega
   have h3 : ¬ ((digitsVal (ip ++ fp) : Int) < 0) := by omega
@@ -142,7 +142,7 @@ theorem parseDecimal_int {ip : List Char} (hne : ip ≠ []) (hi : AllDigits ip) 
   simp only [hcounti, takeWhile_all hdot, dropWhile_all hdot, List.drop_nil, List.append_nil,
     List.length_nil]
   rw [parseSigned_digits hne hi]
-  simp only [precision, minInt32, maxInt32]
+  simp only [precision, Mixin.Facts.Gen.common_Precision, minInt32, maxInt32]
   have h3 : ¬ ((digitsVal ip : Int) < 0) := by omega
   simp [h3]
 
@@ -174,7 +174,7 @@ theorem parse_truncates {ip fp : List Char} (hne : ip ++ fp ≠ [])
     ∃ q, parseDecimal (ip ++ '.' :: fp) = some q ∧
       IsFloorDiv q (digitsVal (ip ++ fp) * 10 ^ 8) (10 ^ fp.length) := by
   refine ⟨plainValue ip fp, parseDecimal_plain hne hi hf hlen, ?_⟩
-  unfold plainValue precision
+  unfold plainValue precision Mixin.Facts.Gen.common_Precision
   by_cases hle : fp.length ≤ 8
   · simp only [hle, if_true]
     have : 10 ^ 8 = 10 ^ (8 - fp.length) * 10 ^ fp.length := by
@@ -220,11 +220,11 @@ theorem print_parse (n : Nat) : parseDecimal (printAmount n) = some n := by
     have hf : AllDigits ((Nat.toDigits 10 n).drop ((Nat.toDigits 10 n).length - precision)) :=
       fun c hc => hd c (List.mem_of_mem_drop hc)
     have hfl : ((Nat.toDigits 10 n).drop ((Nat.toDigits 10 n).length - precision)).length = 8 := by
-      simp [precision] at hlen ⊢; omega
+      simp [precision, Mixin.Facts.Gen.common_Precision] at hlen ⊢; omega
     rw [parseDecimal_plain (by simpa using hne) hi hf (by omega)]
     unfold plainValue
     rw [hfl, List.take_append_drop, hv]
-    simp [precision]
+    simp [precision, Mixin.Facts.Gen.common_Precision]
   · simp only [hlen, if_false]
     have hz : AllDigits (List.replicate (precision - (Nat.toDigits 10 n).length) '0' ++ Nat.toDigits 10 n) := by
       intro c hc
@@ -233,7 +233,7 @@ theorem print_parse (n : Nat) : parseDecimal (printAmount n) = some n := by
       · exact hd c h
     have h0 : AllDigits ['0'] := by intro c hc; simp at hc; subst hc; decide
     have hfl : (List.replicate (precision - (Nat.toDigits 10 n).length) '0' ++ Nat.toDigits 10 n).length = 8 := by
-      simp [precision] at hlen ⊢; omega
+      simp [precision, Mixin.Facts.Gen.common_Precision] at hlen ⊢; omega
     have := parseDecimal_plain (ip := ['0']) (by simp) h0 hz (by omega)
     simp only [List.cons_append, List.nil_append] at this
     rw [this]
@@ -241,7 +241,7 @@ theorem print_parse (n : Nat) : parseDecimal (printAmount n) = some n := by
     rw [hfl]
     simp only [List.cons_append, List.nil_append]
     rw [digitsVal_zeros_append, hv]
-    simp [precision]
+    simp [precision, Mixin.Facts.Gen.common_Precision]
 
 /-- The printed text is normalised: digits, one point, exactly eight fractional digits. -/
 theorem print_normal (n : Nat) :
@@ -254,8 +254,8 @@ theorem print_normal (n : Nat) :
     refine ⟨_, _, rfl, fun c hc => hd c (List.mem_of_mem_take hc), fun c hc => hd c (List.mem_of_mem_drop hc), ?_, ?_⟩
     · intro h
       have := congrArg List.length h
-      simp [precision] at this hlen; omega
-    · simp [precision] at hlen ⊢; omega
+      simp [precision, Mixin.Facts.Gen.common_Precision] at this hlen; omega
+    · simp [precision, Mixin.Facts.Gen.common_Precision] at hlen ⊢; omega
   · simp only [hlen, if_false]
     refine ⟨['0'], _, rfl, ?_, ?_, by simp, ?_⟩
     · intro c hc; simp at hc; subst hc; decide
@@ -263,7 +263,7 @@ theorem print_normal (n : Nat) :
       rcases List.mem_append.mp hc with h | h
       · rw [List.mem_replicate] at h; rw [h.2]; decide
       · exact hd c h
-    · simp [precision] at hlen ⊢; omega
+    · simp [precision, Mixin.Facts.Gen.common_Precision] at hlen ⊢; omega
 
 /-- A negative literal is rejected (the Go code panics). -/
 theorem parse_negative_rejected {ds : List Char} (hne : ds ≠ []) (hd : AllDigits ds)
